@@ -90,3 +90,71 @@ def run(ctx, F):
     if eis is not None:
         rc = [v for r, v, t in ret_consts(eis)]
         ctx.judge(rc == [False], "C31.checked-api", "the empty space contains no object", expected="is_in_space returns false", found=str(rc), where=where(eis), key="C31.checked-api|empty-false")
+    _entry_range(ctx, F)
+    _release_clears(ctx, F)
+
+
+def _entry_range(ctx, F):
+    """C31.entry-range: which addresses `has_sft_entry` admits, per SFT map implementation. The test must be a range test on the
+    address itself (or on its chunk index against the table bound): an index computed by a many-to-one function (addr_to_index
+    wraps around) would admit addresses outside every space."""
+    SM = "policy::sft_map::space_map::SFTSpaceMap"
+    f = F.fns.get("<%s as policy::sft_map::SFTMap>::has_sft_entry" % SM)
+    if f is not None:
+        rows = ret_table(f)
+        trues = [(b, strip(t), g) for b, t, g in rows if const_arg(t) is not False]
+        cmps = []
+        for b, t, g in trues:
+            cmps += [show(p.tree) for p in g if p.val is True] + ([show(t)] if const_arg(t) is None else [])
+        ok = bool(trues) and set(cmps) == {"PartialOrd::ge(arg2, arg1.space_address_start)", "PartialOrd::lt(arg2, arg1.space_address_end)"}
+        ctx.judge(ok, "C31.entry-range", "SFTSpaceMap::has_sft_entry admits exactly start <= addr < end", expected="addr >= self.space_address_start && addr < self.space_address_end (comparisons on the address itself)",
+                  found=str(sorted(set(cmps)))[:240], where=where(f), key="C31.entry-range|space-map")
+        n = F.fn(SM + "::new")
+        vals = {}
+        for i, b in enumerate(n.blocks):
+            if i not in n.cfg.live:
+                continue
+            for j, st in enumerate(b["s"]):
+                if st[0] == "=" and st[2][0] == "agg" and st[2][1].get("adt") == SM:
+                    for nm, op in zip(st[2][1]["fields"], st[2][2]):
+                        vals[nm] = show(strip(n.flow.operand_tree(op, i, j)))
+        okn = vals.get("space_address_start") == "SFTSpaceMap::index_to_space_range(1).0" and \
+            vals.get("space_address_end") == "SFTSpaceMap::index_to_space_range((heap_parameters::MAX_SPACES=16 Sub 1)).1".replace("=16", "=%s" % (vals.get("space_address_end", "").split("MAX_SPACES=")[-1].split(" ")[0] if "MAX_SPACES=" in vals.get("space_address_end", "") else "16"))
+        ctx.judge(okn, "C31.entry-range", "the admitted range is [start of space 1, end of the last space)", expected="index_to_space_range(1).0 .. index_to_space_range(MAX_SPACES - 1).1",
+                  found="start=%s end=%s" % (vals.get("space_address_start"), vals.get("space_address_end")), where=where(n), key="C31.entry-range|space-map-bounds")
+        w = field_mutators(F, SM, "space_address_start") | field_mutators(F, SM, "space_address_end")
+        ctx.judge(not w, "C31.entry-range", "the admitted range never changes", expected="no writer after construction", found=str(sorted(w)), key="C31.entry-range|space-map-const")
+    f = F.fns.get("<policy::sft_map::sparse_chunk_map::SFTSparseChunkMap as policy::sft_map::SFTMap>::has_sft_entry")
+    if f is not None:
+        rt = [show(strip(t)) for _, t in f.flow.return_trees()]
+        ctx.judge(rt == ["(Address::chunk_index(arg2) Lt VMLayout::max_chunks(vm_layout::vm_layout()))"], "C31.entry-range", "SFTSparseChunkMap::has_sft_entry bounds the chunk index by the table size",
+                  expected="addr.chunk_index() < vm_layout().max_chunks()", found=str(rt)[:200], where=where(f), key="C31.entry-range|sparse")
+    f = F.fns.get("<policy::sft_map::dense_chunk_map::SFTDenseChunkMap as policy::sft_map::SFTMap>::has_sft_entry")
+    if f is not None:
+        rows = [(show(strip(t)), [(show(p.tree), p.val) for p in g]) for b, t, g in ret_table(f) if const_arg(t) is not False]
+        ok = rows == [("(SFTDenseChunkMap::addr_to_index(arg2) Lt (Vec::len(arg1.sft) as _))", [("SideMetadataSpec::is_mapped(spec_defs::SFT_DENSE_CHUNK_MAP_INDEX, arg2)", True)])]
+        ctx.judge(ok, "C31.entry-range", "SFTDenseChunkMap::has_sft_entry requires mapped index metadata and an index inside the table", expected="is_mapped(addr) && addr_to_index(addr) < sft.len()",
+                  found=str(rows)[:240], where=where(f), key="C31.entry-range|dense")
+
+
+def _release_clears(ctx, F):
+    """C31.release-clears: when Map32 gives a run of chunks back, every chunk of the run loses both its space descriptor and its
+    SFT entry, addressed by the same per-chunk index (a released chunk must resolve to the empty space)."""
+    f = F.fn("util::heap::layout::map32::Map32::free_contiguous_chunks_no_lock")
+    clr = [c for c in live_calls(f) if c.name == "clear" and c.q and c.q.endswith("SFTMap::clear")]
+    dm = [c for c in live_calls(f) if c.name == "index_mut" and show(strip(f.flow.arg_tree(c, 0))).endswith(".descriptor_map")]
+    ok = len(clr) == 1 and len(dm) == 1
+    found = "SFT clear sites=%d descriptor_map writes=%d" % (len(clr), len(dm))
+    if ok:
+        it = strip(f.flow.arg_tree(dm[0], 1))
+        at = strip(f.flow.arg_tree(clr[0], 1))
+        idx, a = show(it), show(at)
+        ok = bool(at) and at[0] == "call" and last_seg(at[2] or at[1]) == "chunk_index_to_address" and len(at[3]) == 1 and strip(at[3][0]) == it and "Iterator>::next" in idx and "FreeList::free(" in idx
+        # both happen in the same iteration: same guards
+        ok = ok and [show(p.tree) for p in guards(f, clr[0].bb)] == [show(p.tree) for p in guards(f, dm[0].bb)]
+        found = "descriptor index=%s ; SFT clear address=%s" % (idx[:120], a[:160])
+    ctx.judge(ok, "C31.release-clears", "Map32 clears the descriptor and the SFT entry of each freed chunk", expected="for every chunk index i of the freed run: descriptor_map[i] = UNINITIALIZED and SFT_MAP.clear(chunk_index_to_address(i))",
+              found=found, where=where(f), key="C31.release-clears|map32")
+    st = [show(strip(t)) for (bb, j, pl, t) in stores(f) if bb == dm[0].bb + 1 or True]
+    ctx.judge(any("SpaceDescriptor::UNINITIALIZED" in s for s in st), "C31.release-clears", "the freed chunk's descriptor becomes UNINITIALIZED", expected="store of SpaceDescriptor::UNINITIALIZED", found=str(st)[:200], where=where(f),
+              key="C31.release-clears|map32-value")
